@@ -47,19 +47,31 @@ ASSUMPTIONS = ["real arithmetic (no rounding); theorems over R", "termination of
 
 EPS = 2.2204e-16
 BAND = Fraction(1, 10 ** 6)
-STATS = {"band": 0, "chol_contract_calls": 0, "chol_contract_max_residual": 0.0, "solver_runs": 0, "runs_with_prune_step": 0,
-         "runs_with_inner_fix_step": 0, "runs_with_2plus_inner_fix_steps": 0, "outer_iterations": 0}
+STATS = {"chol_contract_calls": 0, "chol_contract_max_residual": 0.0, "solver_runs": 0, "runs_with_prune_step": 0,
+         "runs_with_inner_fix_step": 0, "runs_with_2plus_inner_fix_steps": 0, "runs_with_multi_delete_step_exact": 0, "outer_iterations": 0,
+         # measured on the implementation (wrapper around the choldeleteindexes that fnnls.py calls)
+         "impl_solver_runs_watched": 0, "impl_delete_calls": 0, "impl_delete_calls_2plus": 0, "impl_runs_deleting_2plus_in_one_step": 0,
+         "impl_runs_deleting_3plus_in_one_step": 0, "impl_max_deleted_in_one_step": 0,
+         "glue_cases_nonmapper_before_mapper": 0, "glue_cases_nonmapper_before_mapper_with_forced_edge_and_zero_lists": 0}
+SKIPPED = {}        # reason -> number of cases not evaluated at all
+SPEC_ONLY = {}      # reason -> number of cases where only the specification was evaluated on the implementation's output (KSpec)
+def note(d, reason): d[reason] = d.get(reason, 0) + 1
 def tally(m):
     STATS["solver_runs"] += 1; STATS["outer_iterations"] += m.n_outer
     if m.n_prune: STATS["runs_with_prune_step"] += 1
     if m.n_inner: STATS["runs_with_inner_fix_step"] += 1
     if m.n_inner >= 2: STATS["runs_with_2plus_inner_fix_steps"] += 1
+    if m.n_multi: STATS["runs_with_multi_delete_step_exact"] += 1
 
 def extra_evidence():
-    return {"skipped_in_band": STATS["band"], "cholesky_contract_calls": STATS["chol_contract_calls"],
+    return {"skipped_by_reason": dict(SKIPPED), "skipped_total": sum(SKIPPED.values()),
+            "spec_only_by_reason": dict(SPEC_ONLY), "spec_only_total": sum(SPEC_ONLY.values()),
+            "cholesky_contract_calls": STATS["chol_contract_calls"],
             "cholesky_contract_max_residual": STATS["chol_contract_max_residual"],
             "branch_tally": {k: STATS[k] for k in ("solver_runs", "runs_with_prune_step", "runs_with_inner_fix_step",
-                                                   "runs_with_2plus_inner_fix_steps", "outer_iterations")}}
+                                                   "runs_with_2plus_inner_fix_steps", "runs_with_multi_delete_step_exact", "outer_iterations")},
+            "implementation_delete_tally": {k: STATS[k] for k in STATS if k.startswith("impl_")},
+            "glue_order_tally": {k: STATS[k] for k in STATS if k.startswith("glue_")}}
 
 # --------------------------------------------------------------------------------------------- exact mirror (margins only)
 def gauss(A, b):
@@ -77,7 +89,7 @@ def gauss(A, b):
 
 class Mirror:
     """exact re-execution of fnnls_cholesky that records the distance of every decision from its threshold"""
-    def __init__(self): self.margin = Fraction(10 ** 9); self.n_prune = 0; self.n_inner = 0; self.n_outer = 0
+    def __init__(self): self.margin = Fraction(10 ** 9); self.n_prune = 0; self.n_inner = 0; self.n_outer = 0; self.n_multi = 0
     def dec(self, x, thr):
         self.margin = min(self.margin, abs(Fraction(x) - Fraction(thr)))
     def sub_solve(self, A, b, idx):
@@ -136,6 +148,7 @@ class Mirror:
                 d = [d[i] + alpha * (s[i] - d[i]) for i in range(n)]
                 for i in Pin:
                     if d[i] != 0: self.dec(d[i], tau)     # an exact 0 is the alpha arg-min: noise of either sign ends up deleted
+                if sum(1 for i in Pin if d[i] <= tau) >= 2: self.n_multi += 1
                 Pin = [i for i in Pin if not d[i] <= tau]
                 P = [P[i] and not d[i] <= tau for i in range(n)]
                 if Pin:
@@ -165,7 +178,7 @@ def margin_pos_only(A, b, uses_p):
         for x in u: m.dec(x, 0)
         pinit = [x > 0 for x in u]
     m.fnnls(A, b, tau, pinit)
-    if m.margin >= BAND: tally(m)
+    tally(m)
     return m.margin
 
 # --------------------------------------------------------------------------------------------- Coq printing
@@ -191,7 +204,7 @@ def Sv(v): return [str(F(x)) for x in v]
 class CholWatch:
     """wraps the factor updates used by fnnls_cholesky: after each call, U'^T U' must equal the bordered / deleted Gram matrix"""
     def __init__(self):
-        self.bad = None
+        self.bad = None; self.deleted = []
     def __enter__(self):
         import autoarray.util.fnnls as fm
         self.fm = fm; self.orig = (fm.cholinsertlast, fm.choldeleteindexes)
@@ -206,7 +219,7 @@ class CholWatch:
                 watch.note(np.asarray(S_), want)
             return S_
         def dele(*a, **k):
-            try: U0 = np.array(a[0], dtype=float); idx = [int(i) for i in a[1]]
+            try: U0 = np.array(a[0], dtype=float); idx = [int(i) for i in a[1]]; watch.deleted.append(len(idx))
             except Exception: U0 = None
             S_ = watch.orig[1](*a, **k)
             if U0 is not None and k == {} and len(a) == 2:
@@ -227,6 +240,11 @@ class CholWatch:
             self.bad = f"U^T U differs from A[P,P] by {r} (below-diagonal {lower})"
     def __exit__(self, *a):
         self.fm.cholinsertlast, self.fm.choldeleteindexes = self.orig
+        STATS["impl_solver_runs_watched"] += 1
+        STATS["impl_delete_calls"] += len(self.deleted); STATS["impl_delete_calls_2plus"] += sum(1 for k in self.deleted if k >= 2)
+        if any(k >= 2 for k in self.deleted): STATS["impl_runs_deleting_2plus_in_one_step"] += 1
+        if any(k >= 3 for k in self.deleted): STATS["impl_runs_deleting_3plus_in_one_step"] += 1
+        STATS["impl_max_deleted_in_one_step"] = max([STATS["impl_max_deleted_in_one_step"]] + self.deleted)
 
 # --------------------------------------------------------------------------------------------- generators
 def rand_entry(rng, quarters, lo=-3, hi=3):
@@ -389,16 +407,36 @@ def push_config(pos, pinit, check=True):
     assert (g["use_positive_only_solver"], g["positive_only_uses_p_initial"], g["check_reconstruction"]) == key
 
 # --------------------------------------------------------------------------------------------- cases
-def band_row(kind, why=""):
-    STATS["band"] += 1
-    return {"coq": None, "out": "skipped: a decision lies within 1e-6 of its threshold " + why, "py_ok": None, "kind": "band:" + kind,
-            "nontrivial": False}
+def skip_row(kind, reason):
+    """the case is not evaluated at all (counted per reason in the evidence: skipped_by_reason)"""
+    note(SKIPPED, reason)
+    return {"coq": None, "out": "skipped: " + reason, "py_ok": None, "kind": "skipped:" + kind, "nontrivial": False}
 
+def spec_only(coq, reason):
+    """a decision of the solver lies on / within 1e-6 of a tie (exactly symmetric or degenerate systems), or the system is too
+    ill-conditioned for the 1e-9 comparison: the model-vs-implementation comparison is waived, the SPECIFICATION is still evaluated on
+    the implementation's output -- the KKT certificate must hold whatever tie-break was used (counted: spec_only_by_reason)"""
+    if reason is None: return coq
+    note(SPEC_ONLY, reason)
+    return f"(KSpec {coq})"
+
+TIE = "a solver decision lies within 1e-6 of a tie"
+ILL = "ill-conditioned system (cond > 1e5): 1e-9 comparison with the exact solve not meaningful"
+def cond_of(A):
+    if not A: return 1.0
+    c = np.linalg.cond(np.array([[float(x) for x in r] for r in A]))
+    return float(c) if np.isfinite(c) else float("inf")
 def ill_conditioned(A):
     """the 1e-9 comparison of a double solve with the exact one is only meaningful for cond(A) << 1e7 (singular: handled by the caller)"""
-    if not A: return False
-    c = np.linalg.cond(np.array([[float(x) for x in r] for r in A]))
+    c = cond_of(A)
     return bool(np.isfinite(c) and c > 1e5)
+def cert_swamped(A, b, res):
+    """ill-conditioned systems only: is the rounding error of the gradient of the returned vector (n eps |A| |s|) within a factor 100 of the
+    certificate's tolerance 1e-8 max(1, |b|)?  (then the certificate says nothing; the case is skipped and counted)"""
+    if res[0] != "ok" or not A: return False
+    amax = max(abs(float(x)) for r in A for x in r); smax = max([abs(float(x)) for x in res[1]] + [0.0])
+    bmax = max([1.0] + [abs(float(x)) for x in b])
+    return len(b) * 2.3e-16 * amax * smax * 100 > 1e-8 * bmax
 
 def nontrivial_system(A, b):
     u = gauss(A, b)
@@ -428,29 +466,32 @@ def run_fnnls(aa, inp):
         if len(st["index"]) == 0: pinit = None
         else: pinit = [j in st["index"] for j in range(n)]
         arg = np.array(st["index"], dtype=int)
-    if ill_conditioned(A): return band_row("fnnls", "(ill-conditioned system: cond > 1e5)")
     m = Mirror(); m.fnnls(A, b, Fraction(EPS * n), pinit)
-    if m.margin < BAND: return band_row("fnnls")
     tally(m)
+    why = ILL if ill_conditioned(A) else (TIE if m.margin < BAND else None)
     with CholWatch() as cw:
         res = out_vec(call(fnnls.fnnls_cholesky, flm(A), np.array(fl(b)), arg))
-    coq = f"(KFnnls {cqm(A)} {cqv(b)} {cq(F(EPS))} {copt(pinit, cbools)} {cres_vec(res)})"
-    return {"coq": coq, "out": show(res), "py_ok": (False if cw.bad else None), "detail": cw.bad, "kind": "fnnls:" + st["kind"],
+    if why == ILL and cert_swamped(A, b, res): return skip_row("fnnls", "ill-conditioned and rounding error of the certificate near its tolerance")
+    coq = spec_only(f"(KFnnls {cqm(A)} {cqv(b)} {cq(F(EPS))} {copt(pinit, cbools)} {cres_vec(res)})", why)
+    return {"coq": coq, "out": show(res), "py_ok": (False if cw.bad else None), "detail": cw.bad,
+            "kind": "fnnls:" + st["kind"] + (":sym" if inp.get("sym") else "") + (":speconly" if why else ""),
             "nontrivial": nontrivial_system(A, b)}
 
 def run_posonly(aa, inp):
     from autoarray.inversion.inversion import inversion_util
     A, b = mats(inp); n = len(b)
-    if ill_conditioned(A): return band_row("posonly", "(ill-conditioned system: cond > 1e5)")
     mg = margin_pos_only(A, b, inp["uses_p"])
-    if mg is None or mg < BAND: return band_row("posonly")
+    if mg is None: return skip_row("posonly", "exact system singular (outside the SPD quantifier)")
+    why = ILL if ill_conditioned(A) else (TIE if mg < BAND else None)
     settings = aa.SettingsInversion(positive_only_uses_p_initial=inp["uses_p"])
     with CholWatch() as cw:
         res = out_vec(call(inversion_util.reconstruction_positive_only_from, data_vector=np.array(fl(b)),
                            curvature_reg_matrix=flm(A) if n else np.zeros((0, 0)), settings=settings))
-    coq = f"(KPosOnly {cqm(A)} {cqv(b)} {cq(F(EPS))} {cbool(inp['uses_p'])} {cres_vec(res)})"
+    if why == ILL and cert_swamped(A, b, res): return skip_row("posonly", "ill-conditioned and rounding error of the certificate near its tolerance")
+    coq = spec_only(f"(KPosOnly {cqm(A)} {cqv(b)} {cq(F(EPS))} {cbool(inp['uses_p'])} {cres_vec(res)})", why)
     return {"coq": coq, "out": show(res), "py_ok": (False if cw.bad else None), "detail": cw.bad,
-            "kind": "posonly:" + ("warm" if inp["uses_p"] else "cold"), "nontrivial": n > 0 and nontrivial_system(A, b)}
+            "kind": "posonly:" + ("warm" if inp["uses_p"] else "cold") + (":sym" if inp.get("sym") else "") + (":speconly" if why else ""),
+            "nontrivial": n > 0 and nontrivial_system(A, b)}
 
 def allclose_margin_ok(s, ranges):
     """the np.allclose decisions (|x - x0| <= 1e-8 + 1e-5 |x0|) must be clear-cut: exact equality or a factor 100 away"""
@@ -467,7 +508,8 @@ def run_posneg(aa, inp):
     A, b = mats(inp)
     ranges = [list(r) for r in inp["ranges"]]
     u = gauss(A, b)
-    if u is not None and not allclose_margin_ok(u, ranges): return band_row("posneg")
+    why = None
+    if u is not None and not allclose_margin_ok(u, ranges): why = "np.allclose decision of the all-equal check within a factor 100 of its threshold"
     check = bool(inp["check"])
     if inp.get("via_config"):
         push_config(True, True, check=check); force = False
@@ -477,9 +519,9 @@ def run_posneg(aa, inp):
                        mapper_param_range_list=ranges, force_check_reconstruction=force))
     push_config(True, True, check=True)
     cr = clist([ctup([cnat(r[0]), cnat(r[1])]) for r in ranges])
-    coq = f"(KPosNeg {cqm(A)} {cqv(b)} {cr} {cbool(check)} {cres_vec(res)})"
+    coq = spec_only(f"(KPosNeg {cqm(A)} {cqv(b)} {cr} {cbool(check)} {cres_vec(res)})", why)
     return {"coq": coq, "out": show(res), "py_ok": None, "kind": "posneg:" + ("singular" if u is None else "regular") +
-            (":raise" if res[0] == "raise" else ""), "nontrivial": u is not None}
+            (":raise" if res[0] == "raise" else "") + (":speconly" if why else ""), "nontrivial": u is not None}
 
 def cobj(params, mapper, edge, M):
     return f"(@mkobj QOps {cnat(params)} {cbool(mapper)} {clist([cnat(e) for e in edge])} {cqm(M)})"
@@ -503,22 +545,35 @@ def inversion_rows(aa, inv, objs_desc, st, kind, nontrivial=True):
                     forced |= {j + off for j in range(o["params"]) if any(o["Mq"][r][j] != 0 for r in st["source_zero"])}
             off += o["params"]
     kept = [i for i in range(n) if i not in forced]
-    if ill_conditioned([[A[i][j] for j in kept] for i in kept]): return band_row(kind, "(ill-conditioned system: cond > 1e5)")
+    Ak = [[A[i][j] for j in kept] for i in kept]
+    why = ILL if ill_conditioned(Ak if st["pos"] else A) else None       # (an exactly singular system has cond = inf: not "ill", see below)
     if st["pos"]:
-        mg = margin_pos_only([[A[i][j] for j in kept] for i in kept], [b[i] for i in kept], st["pinit"])
-        if mg is None or mg < BAND: return band_row(kind)
+        mg = margin_pos_only(Ak, [b[i] for i in kept], st["pinit"])
+        if mg is None: return skip_row(kind, "exact system singular (outside the SPD quantifier)")
+        if mg < BAND and why is None: why = TIE
     else:
         u = gauss(A, b)
         ranges = []; off = 0
         for o in objs_desc:
             if o["mapper"]: ranges.append([off, off + o["params"]])
             off += o["params"]
-        if u is not None and not allclose_margin_ok(u, ranges): return band_row(kind)
+        if u is not None and not allclose_margin_ok(u, ranges) and why is None:
+            why = "np.allclose decision of the all-equal check within a factor 100 of its threshold"
+    # glue-layer coverage: a non-mapper linear object precedes a mapper, and the forced lists are non-empty
+    seen_func = False; order_hit = False
+    for o in objs_desc:
+        if not o["mapper"]: seen_func = True
+        elif seen_func: order_hit = True
+    if order_hit:
+        STATS["glue_cases_nonmapper_before_mapper"] += 1
+        if st["pos"] and st["force"] and st["edge_image"] and any(o["mapper"] and o["edge"] for o in objs_desc) and st["source_zero"] and forced:
+            STATS["glue_cases_nonmapper_before_mapper_with_forced_edge_and_zero_lists"] += 1
     with CholWatch() as cw:
         res = out_vec(call(lambda: inv.reconstruction))
     cobjs = clist([cobj(o["params"], o["mapper"], o["edge"], o["Mq"]) for o in objs_desc])
     cs = cset(st["pos"], st["pinit"], st["force"], st["edge_image"], st["source_zero"], st["check"])
-    coq = f"(KRecon {cs} {cobjs} {cqm(A)} {cqv(b)} {cq(F(EPS))} {cres_vec(res)})"
+    if why == ILL and cert_swamped(A, b, res): return skip_row(kind, "ill-conditioned and rounding error of the certificate near its tolerance")
+    coq = spec_only(f"(KRecon {cs} {cobjs} {cqm(A)} {cqv(b)} {cq(F(EPS))} {cres_vec(res)})", why)
     extra = []; py_ok = False if cw.bad else None; detail = cw.bad
     out = {"reconstruction": show(res)}
     if res[0] == "ok":
@@ -538,7 +593,7 @@ def inversion_rows(aa, inv, objs_desc, st, kind, nontrivial=True):
             py_ok = False; detail = "dictionary keys are not the linear objects in order"
     return {"coq": coq, "extra_coq": extra, "out": out, "py_ok": py_ok, "detail": detail,
             "kind": kind + (":pos" if st["pos"] else ":posneg") + (":force" if st["pos"] and st["force"] else "")
-                    + (":raise" if res[0] == "raise" else ""), "nontrivial": nontrivial}
+                    + (":raise" if res[0] == "raise" else "") + (":speconly" if why else ""), "nontrivial": nontrivial}
 
 def make_settings(aa, st, use_w_tilde):
     if st.get("via_config"):
